@@ -50,6 +50,17 @@ Theorem C18_try_fallback_iff_raises V R (inj : V -> R) (v : R) (s : sig V) (f : 
 Proof. split; [apply try_value_spec|apply try_back_spec]. Qed.
 Print Assumptions C18_try_fallback_iff_raises.
 
+(* try_value hands out a fresh copy of its fallback: over EVERY history of calls, whatever the caller does to the
+   fallbacks it received, every failing call returns the pristine value; without the copy it does not *)
+Theorem C18_try_fallback_fresh_copy R (mut : R -> R) (v : R) (outs : list (lres R)) :
+  try_hist true mut v outs = map (fun o => match o with LOk r => r | LErr _ => v end) outs.
+Proof. exact (try_hist_fresh mut v outs). Qed.
+Print Assumptions C18_try_fallback_fresh_copy.
+Theorem C18_try_fallback_shared_refuted :
+  try_hist false (fun l : list Z => (l ++ [99%Z])%list) [] [LErr "E"; LErr "E"] = [[]; [99%Z]].
+Proof. reflexivity. Qed.
+Print Assumptions C18_try_fallback_shared_refuted.
+
 (* kwargs_support(f) for f without **kwargs: f is called without exactly the keywords it does not declare
    (and with the call unchanged when all are declared) *)
 Theorem C18_kwargs_support_ignores_exactly_undeclared V R (s : sig V) (f : call V -> lres R) args kw :
